@@ -5,7 +5,7 @@ from .. import modules
 
 
 def run(ctx):
-    if not ctx.build_harness(["c18.go", "c18cons.go", "c18sig.go", "gen_tagchars.go"]):
+    if not ctx.build_harness(["c18.go", "c18cons.go", "c18sig.go", "c18data.go", "c18proc.go", "gen_tagchars.go"]):
         return
     # allocatable-register limits of the model come from the regenerated register table
     # … and which characters may stand in a build tag from the installed go/build/constraint (measured on every run)
@@ -90,9 +90,29 @@ def run(ctx):
                            "nav_near_miss_on_ptr": 30,
                            "attr_any": 1000, "dattr_any": 400, "label_near_miss_defined": 3400,
                            "label_near_miss_referenced": 1100})
+        # the process: Main on the Config of build.NewFlags with the default limit of 10 messages; the child-process
+        # route (build.Generate, real exit code); data at scale (valid side)
+        floors_gen.update({"main_via_flags_limit10": 400, "child_runs": 130, "child_exit_nonzero": 85, "child_exit_zero": 40,
+                           "child_limit10": 65, "datum_boundary_valid": 3000, "datum_boundary_bad": 140,
+                           "datum_placed_below_all": 340, "datum_straddles_64": 2400, "datum_straddles_128": 1700,
+                           "datum_straddles_256": 1100, "datum_straddles_4096": 200, "datum_longer_than_64": 1300,
+                           "datum_offset_from_4096": 550})
+        floors_gen.update({"datum_start_residue64_%d" % i: 270 for i in range(8)})
+        # fixed parts of the run (do not scale with n): the sweep of the measured table's edges; k faults for k around
+        # every multiple of 256 (each k: all the same and mixed, Main on buffers + on the flags Config + child process);
+        # collisions that lie only beyond / only before a 64-, 128-, 256-, 4096-byte boundary of the earlier or of the
+        # later datum, in the first / last byte only
+        floors_abs = {"cons_edge_valid": 800, "cons_edge_invalid": 800, "datum_sweep": 1500,
+                      "datum_overlap_first_byte_only": 240, "datum_overlap_last_byte_only": 240, "datum_overlap_contains": 45}
+        for kk in (255, 256, 257, 511, 512, 513, 767, 768, 769, 1023, 1024, 1025):
+            floors_abs["long_same_%d" % kk] = 2
+            floors_abs["long_mixed_%d" % kk] = 2
+        for mod, fl in ((64, 100), (128, 75), (256, 50), (4096, 12)):
+            for side in ("earlier", "new"):
+                floors_abs["datum_overlap_only_beyond_%d_of_%s" % (mod, side)] = fl
+                floors_abs["datum_overlap_only_before_%d_of_%s" % (mod, side)] = fl
         low = []
-        # the sweep of the measured table's edges does not scale with n
-        for k, fl in (("cons_edge_valid", 800), ("cons_edge_invalid", 800)):
+        for k, fl in floors_abs.items():
             ctx.obligations += 1
             if gen.get(k, 0) < fl:
                 low.append(f"{k}: {gen.get(k, 0)} < {fl}")
@@ -139,7 +159,19 @@ def run(ctx):
         "Constraint/Instruction/Signature; 3 of 4 through build.Context methods, 1 of 4 through the package-level "
         "functions on a swapped-in context; every call under recover; then Result() and build.Main with [Compile, "
         "Output(goasm), Output(stubs)] into buffers, 1 of 8 instead with the Config of build.NewFlags(-out -stubs -log -e "
-        "-pkg) into files. 41 fixed histories (witnesses of all listed findings, one per fault kind, the witnesses of the "
+        "-pkg) into files, half of these without -e (the default limit of 10 messages + 'too many errors'); one random history "
+        "in 48 and every long history also in a CHILD PROCESS (this binary, subcommand c18child, rebuilds the history from the "
+        "same generator state and ends in build.Generate() with -out/-stubs/-log files): the exit code the operating system "
+        "reports and the files on disk are judged by the same acceptor (route=….child). The status judged everywhere is the "
+        "process exit status = low 8 bits of what Main returned (model exitCode; measured by os.Exit(k) in a child for 17 "
+        "values of k, line c18exit). Long histories: exactly k builder-time faults for k = 255 256 257 511 512 513 767 768 "
+        "769 1023 1024 1025, all the same fault (a wrong operand in an unrolled loop) and a rotation of eight fault kinds, "
+        "each through Main on buffers, Main on the flags Config (with and without the limit) and the child process. Data at "
+        "scale: one placement in three is made relative to the boundaries 8…8192 (ends at / starts at / crosses / any "
+        "residue / back to front below everything placed), sizes 1-8 and strings of 1-300 bytes, bad ones aimed at the last "
+        "byte / first byte / only beyond / only before a 64-128-256-4096 boundary of the earlier or of the later datum / "
+        "containing / identical; plus a deterministic sweep (one section, datum A across a boundary 64…4096, datum X at the "
+        "characteristic distances, both orders; quick: a quarter of the ~7700 cases rotating with the seed). 41 fixed histories (witnesses of all listed findings, one per fault kind, the witnesses of the "
         "seeded changes about tag characters and zero-width data) run first. Exact "
         "comparison with the model: error count and class per fault, node count and local size per function, datum count "
         "and size per data section, constraint count, order of file sections (line c18); status, which outputs were "
@@ -174,6 +206,10 @@ def run(ctx):
         "Attributes(NOFRAME) is never requested: a NOFRAME function whose allocation reaches the base pointer fails to "
         "compile ('NOFRAME function clobbers base pointer register'), a compile-time fault outside the property's list "
         "that the model does not describe",
+        "the operating system keeps the low 8 bits of the value given to os.Exit (POSIX); measured on every run for 17 values "
+        "(c18exit) and modelled as exitCode; Spec speaks about that exit code, whatever integer Main returned",
+        "the child-process route replays a history from the generator state; it is used only for histories without nil "
+        "arguments and without panics (a panic inside the child would be the Go runtime's exit status 2)",
         "a diagnostic is one line per message; a message that itself contains line breaks (buildtags prints the offending "
         "character raw) is counted once",
         "function names that are not Go identifiers and Doc/Pragma text with a line break are not on the list either: "
@@ -195,3 +231,4 @@ def run(ctx):
     ctx.trusted.append("harness/c18.go calibration witnesses (one canonical request per message class)")
     ctx.trusted.append("harness/c18cons.go c18toolTerm / c18toolExpr (read the answer of go/build/constraint.Parse, strings.Fields, "
                        "strings.Split) and harness/c18sig.go c18typesSig (reads the answer of go/types.Eval)")
+    ctx.trusted.append("harness/c18proc.go (spawns the child processes, reads exit codes and file sizes)")
